@@ -65,7 +65,8 @@ def _same_exc(a, b):
     if type(a) is not type(b):
         return False
     head = lambda e: str(e.args[0] if e.args else "").split(". Original stack trace")[0]  # noqa: E731
-    return head(a) == head(b)
+    # (a replayed KeyError carries the repr of the original message: str(KeyError(m)) is repr(m))
+    return head(a) == head(b) or head(a) == repr(head(b)) or repr(head(a)) == head(b)
 
 
 def _store_view(st):
@@ -99,6 +100,16 @@ def execute(case, scratch):
         # every call of the case - individual or batch - is made under the same context arguments (or none)
         ctx_args = case.get("ctx")
         base_fn = tfuncs.bat if ctx_args is None else tfuncs.bat.with_context_args(dict(ctx_args))
+        # an individual call is made with all arguments, or (indiv_via_prefix) through the same partial prefix as the batch
+        # with the element given positionally: one and the same call either way
+        via = case["mode"].get("prefix") if case.get("indiv_via_prefix") else "none"
+
+        def indiv(k):
+            if via == "pos":
+                return base_fn.partial(P)(k)
+            if via == "kw":
+                return base_fn.partial(p=P)(k)
+            return base_fn(P, k)
         # ---- twin: element-wise
         twin = _mk(case, d, "twin")
         rt.take()
@@ -106,8 +117,8 @@ def execute(case, scratch):
         again = {}    # outcome of a later individual call (served from the store when memoizable)
         for k in pre + distinct:
             if k not in single:
-                single[k] = _outcome_of(lambda: base_fn(P, k))
-                again[k] = _outcome_of(lambda: base_fn(P, k))
+                single[k] = _outcome_of(lambda: indiv(k))
+                again[k] = _outcome_of(lambda: indiv(k))
         rt.take()
 
         def expected(i):
@@ -117,14 +128,14 @@ def execute(case, scratch):
         # ---- batch store
         st = _mk(case, d, "batch")
         for k in pre:
-            _outcome_of(lambda: base_fn(P, k))
+            _outcome_of(lambda: indiv(k))
         if case.get("warm") is not None:
             # a new backend object on the same store (cold memory cache), then some of the memoized elements are read
             # individually: the batch meets a mix of cached and disk-only mementos
             st = _mk(case, d, "batch")
             for k in case["warm"]:
                 if k in pre:
-                    _outcome_of(lambda: base_fn(P, k))
+                    _outcome_of(lambda: indiv(k))
         rt.take()
         mode = case["mode"]
         fn = base_fn if not case.get("ctx_last") else tfuncs.bat
@@ -199,6 +210,44 @@ def execute(case, scratch):
                 if a[0] != b[0] or not values.typed_equal(a[1] if not isinstance(a[1], tuple) else list(a[1][:2]),
                                                           b[1] if not isinstance(b[1], tuple) else list(b[1][:2])):
                     out.violation("stored record for %s differs: %r vs %r" % (h[:8], a, b), symptom="store-differs")
+        # second batch after every call of the function was forgotten at once, while the first batch's results are still
+        # held by the caller: every distinct element runs again exactly once and the store ends up as before
+        if not out.violations and mode["api"] == "call_batch" and got[0] == "ok":
+            held = got
+            tfuncs.bat.forget_all()
+            rt.take()
+            got2 = _outcome_of(lambda: f.call_batch(kw, raise_first_exception=False))
+            runs2 = [r[1]["k"] for r in rt.take() if r[0] == "bat"]
+            if got2[0] != "ok" or not isinstance(got2[1], list) or len(got2[1]) != len(batch):
+                out.violation("the batch evaluated again after forget_all() gave %r" % (got2,), symptom="batch-after-forget-all-differs")
+            else:
+                for k in distinct:
+                    memoizable = case["elements"][str(k)]["kind"] != "unsupported" and not (
+                        case["elements"][str(k)]["kind"] == "exc" and case["elements"][str(k)]["exc"] == "NotMemoized")
+                    if memoizable and runs2.count(k) != 1:
+                        out.violation("after forget_all() element %r ran %d times in the batch (expected once: nothing is memoized any more)" % (k, runs2.count(k)),
+                                      symptom="runs-after-forget-all", runs=min(runs2.count(k), 2))
+                        break
+                for i, k in enumerate(batch):
+                    a, b = held[1][i], got2[1][i]
+                    if isinstance(a, Exception) or isinstance(b, Exception):
+                        # a: possibly the replay of a record (a MementoException wrapper when the class cannot be rebuilt),
+                        # b: raised by the body just now - the same failure when b's class name and message show in a
+                        same = isinstance(a, Exception) and isinstance(b, Exception) and (
+                            _same_exc(a, b) or (isinstance(a, MementoException) and type(b).__name__ in str(a)
+                                                and (str(b.args[0] if b.args else "") in str(a))))
+                    else:
+                        same = values.typed_equal(a, b)
+                    if not same:
+                        out.violation("slot %d (element %r) after forget_all(): %r, before: %r" % (i, k, b, a), symptom="batch-after-forget-all-differs")
+                        break
+                view2 = _store_view(st)
+                n_memo = len([k for k in distinct if case["elements"][str(k)]["kind"] != "unsupported" and not (
+                    case["elements"][str(k)]["kind"] == "exc" and case["elements"][str(k)]["exc"] == "NotMemoized")])
+                if not out.violations and (len(view2) != n_memo or not set(view2) <= set(twin_view)):
+                    out.violation("store after forget_all() and a second batch holds %d calls (%d of them unknown to the element-wise store); the batch has %d distinct memoizable elements" % (
+                        len(view2), len(set(view2) - set(twin_view)), n_memo), symptom="store-differs", after_forget_all=True)
+            del held
         dup = len(distinct) < len(batch)
         out.nontrivial = (dup or bool(failing)) and bool(pre) and len(set(pre) & set(distinct)) < len(distinct)
         out.labels = ["api:" + mode["api"], "backend:" + case["backend"]] + (["dup"] if dup else []) + (["failing"] if failing else []) + \
@@ -230,6 +279,8 @@ def strategy():
         st.builds(lambda e, mm: {"kind": "exc", "exc": e, "msg": mm},
                   st.sampled_from(["ValueError", "KeyError", "CustomErr", "TwoArgErr", "NotMemoized"]), msg),
         st.just({"kind": "unsupported"}),
+        # weak-referenceable values, small and larger than the whole memory cache (10 KB)
+        st.sampled_from([{"kind": "value", "v": {"t": "nd", "dtype": "int8", "n": 20000}}, {"kind": "value", "v": {"t": "nd", "dtype": "int64", "v": [1, 2, 3]}}]),
     )
 
     @st.composite
@@ -252,7 +303,7 @@ def strategy():
         ctx = draw(st.sampled_from([None, None, {"tenant": "a"}, {"tenant": "b", "asof": 3}]))
         warm = draw(st.lists(st.sampled_from(keys), max_size=nkeys, unique=True)) if (backend == "fsc" and draw(st.booleans())) else None
         return {"elements": elements, "batch": batch, "pre": sorted(pre), "mode": mode, "backend": backend,
-                "ctx": ctx, "ctx_last": draw(st.booleans()), "warm": warm}
+                "ctx": ctx, "ctx_last": draw(st.booleans()), "warm": warm, "indiv_via_prefix": draw(st.booleans())}
 
     return case()
 
